@@ -7,7 +7,7 @@ export GOFLAGS=-mod=mod GOPROXY=off
 git -C /repo worktree remove --force "$wt" >/dev/null 2>&1
 git -C /repo worktree add -q "$wt" HEAD || exit 2
 cd "$wt"
-if ! git apply "$dir/patch.diff"; then echo "$id APPLY-FAILED"; git -C /repo worktree remove --force "$wt"; exit 1; fi
+p="$dir/patch.diff"; [ -f "$dir/patch.rebased.diff" ] && p="$dir/patch.rebased.diff"; if ! git apply "$p"; then echo "$id APPLY-FAILED"; git -C /repo worktree remove --force "$wt"; exit 1; fi
 b="ok"; go build ./... > "/tmp/cs-$id.build.log" 2>&1 || b="FAIL"
 go test -vet=off -count=1 ./... > "/tmp/cs-$id.test.log" 2>&1
 fails=$(grep -E '^--- FAIL' "/tmp/cs-$id.test.log" | grep -v '_Integrity' | tr '\n' ';')
